@@ -147,7 +147,7 @@ Fixpoint eval_text_all_f (ef : nat) (fuel : nat) (t : text) (s : vm) (acc : list
               | Some r => eval_text_all_f ef f r s' (FOk c :: acc)
               | None => (rev (FOk c :: acc), s')
               end
-          | ROk (Failed e m) s' =>
+          | ROk (Failed e m _) s' =>
               match rest with
               | Some r => eval_text_all_f ef f r s' (FErr e m :: acc)
               | None => (rev (FErr e m :: acc), s')
